@@ -6,6 +6,7 @@ translation on/off through a loopback transport into the real dispatcher, with
 a History attached; plus the same calls over kernel TCP and Unix sockets
 against real SimpleJSONRPCServer and PooledJSONRPCServer instances.
 """
+import inspect
 import itertools
 import os
 import shutil
@@ -567,6 +568,48 @@ def _pyvalues():
 
 PYVALUES = _pyvalues()
 
+
+def _inject(fn):
+    """A decorator that supplies the first argument itself: the wrapper's calling convention differs from the signature functools.wraps advertises."""
+    @functools.wraps(fn)
+    def wrapper(*a, **k):
+        return fn("ctx", *a, **k)
+    return wrapper
+
+
+@_inject
+def _lookup(ctx, key, default=None):
+    return [ctx, key, default]
+
+
+def _swallow(fn):
+    """A decorator whose wrapper accepts more than the wrapped function declares (it drops a trailing option)."""
+    @functools.wraps(fn)
+    def wrapper(*a, **k):
+        k.pop("trace", None)
+        return fn(*a[:1], **k)
+    return wrapper
+
+
+@_swallow
+def _one(a=0):
+    return {"a": a}
+
+
+def _lying(a, b):
+    return [a, b]
+
+
+_lying.__signature__ = inspect.signature(lambda: None)  # an advertised signature that does not describe the function
+
+
+def _posonly(a, b=5, /):
+    return [a, b]
+
+
+def _kwonly(*, a, b=6):
+    return [a, b]
+
 CALLABLES = [
     # (name, callable, positional argument lists to try)
     ("max", max, [[3, 9, 4], [[1, 5, 2]]]),
@@ -593,6 +636,13 @@ CALLABLES = [
     ("cls", _Callable, None),
     ("divmod", divmod, [[7, 2]]),
     ("isinstance-free", bool, [[0], [[]], ["x"]]),
+    # argument lists and (dict entries) keyword maps; what counts is the callable's behaviour, not the signature it advertises
+    ("injecting-decorator", _lookup, [["k"], ["k", 1], {"key": "k"}, {"key": "k", "default": 0}]),
+    ("swallowing-decorator", _one, [[], [1], [1, 2], {"a": 1, "trace": True}]),
+    ("lying-signature", _lying, [[1, 2], {"a": 1, "b": 2}]),
+    ("positional-only", _posonly, [[1], [1, 2]]),
+    ("keyword-only", _kwonly, [{"a": 1}, {"a": 1, "b": 2}]),
+    ("lru-cached", functools.lru_cache(maxsize=2)(lambda a, b=1: [a, b]), [[1], [1, 2], {"a": 3}, [1]]),
 ]
 
 _PYW = {}
@@ -665,22 +715,23 @@ def check_pyvalue(case):
         return out
     name, fn, argl = CALLABLES[i]
     args = argl[x]
-    want = gen.normalise(fn(*args))
+    args, kwargs = ((), args) if isinstance(args, dict) else (args, {})
+    want = gen.normalise(fn(*args, **kwargs))
     try:
         if y == "plain":
-            got = getattr(proxy.c, name)(*args)
+            got = getattr(proxy.c, name)(*args, **kwargs)
         elif y == "batch":
             mc = jsonrpclib.MultiCall(proxy)
-            getattr(mc.c, name)(*args)
+            getattr(mc.c, name)(*args, **kwargs)
             mc.f(1)
             got = list(mc())[0]
         else:
-            got = getattr(proxy._notify.c, name)(*args)
+            got = getattr(proxy._notify.c, name)(*args, **kwargs)
             want = None
     except Exception as ex:
-        return out.bad("C01/python-callables/call-raises-%s" % type(ex).__name__, "registered %s called with %r raised %r" % (name, args, ex))
+        return out.bad("C01/python-callables/call-raises-%s" % type(ex).__name__, "registered %s called with %r raised %r" % (name, args or kwargs, ex))
     if not gen.same(got, want):
-        out.bad("C01/python-callables/return-value-changed", "registered %s%r: client got %r, the callable returns %r" % (name, tuple(args), got, want))
+        out.bad("C01/python-callables/return-value-changed", "registered %s%r: client got %r, the callable returns %r" % (name, tuple(args) or kwargs, got, want))
     return out
 
 
@@ -700,8 +751,8 @@ META = {
     "'__jsonclass__' members as plain data through loopback and real servers configured with use_jsonclass=False; multicall: every batch of <=3 jobs over 6 job kinds (calls and notifications) x "
     "values x server version; kernel-sockets: SimpleJSONRPCServer and PooledJSONRPCServer x TCP/Unix x versions x 29 values (leaves, nested, >1 KiB "
     "multi-byte, >2 KiB of blanks); python-values: 23 values of non-exact Python types (OrderedDict, Counter, defaultdict, dict/list/str/int subclasses, tuples, "
-    "namedtuples, blank-rich long strings) as argument and as return value x styles x versions, and 23 registered callables that are not plain functions "
-    "(builtins, bound builtin methods, operator/functools objects, callable instances, bound/static/class methods, lambdas) x argument lists x {call, batch, "
+    "namedtuples, blank-rich long strings) as argument and as return value x styles x versions, and 29 registered callables that are not plain functions "
+    "(builtins, bound builtin methods, operator/functools objects, callable instances, bound/static/class methods, lambdas, decorator wrappers whose calling convention differs from the advertised signature, positional-only and keyword-only parameters) x argument lists x {call, batch, "
     "notification}, and one registered method name per printable ASCII character and 9 other code points (first, middle, last position); every case non-trivial",
     "bounds": {"quick": {"value_depth": 1, "batch_len": 3}, "thorough": {"value_depth": 2, "batch_len": 3}},
     "assumptions": ["fault-free network (property domain)", "payloads contain no '__jsonclass__' keys when translation is on", "stdlib json backend"],
